@@ -1334,7 +1334,13 @@ def extract_unit(repo, unit, shim_methods):
         if isinstance(c, str):
             c = {"name": c}
         toks, _ = toks_of(c.get('file', default_file))
-        parts.append(extract_constant(toks, c['name'], c.get('cname', c['name']), R, c.get('scope')))
+        try:
+            parts.append(extract_constant(toks, c['name'], c.get('cname', c['name']), R, c.get('scope')))
+        except ExtractionBreak:
+            # "optional": a constant that only exists in some versions of the header (pre.h/post.c test it with #ifdef)
+            if not c.get('optional'):
+                raise
+            R.notes.append(f"optional constant {c['name']} not present")
     for sa in unit.get('static_asserts', []):
         toks, _ = toks_of(sa.get('file', default_file))
         parts.append(extract_static_asserts(toks, sa['scope'], sa['cname'], R))
